@@ -52,6 +52,14 @@ theorem dyDen_eq (E : Int) : dyDen E = Q E := by
   · rw [Q_of_nonneg (by omega)]
   · rfl
 
+/-- The upper half-step condition of `IsNearest` below, `num/den ≤ (2M+1)·2^E / 2`, written with
+the value pairs and cross-multiplied comparison. -/
+theorem upper_iff_ratLe (num den M : Nat) (E : Int) :
+    2 * (num * Q E) ≤ (2 * M + 1) * (den * P E) ↔
+      ratLe (2 * num) den (dyNum (2 * M + 1) E) (dyDen E) := by
+  unfold ratLe
+  rw [dyNum_eq, dyDen_eq, Nat.mul_assoc 2 num, Nat.mul_assoc (2 * M + 1), Nat.mul_comm (P E) den]
+
 theorem decDen_pos (d : Int) : 0 < decDen d := by
   unfold decDen; split
   · exact Nat.one_pos
@@ -741,6 +749,8 @@ theorem IsNearest.toK {num den M : Nat} {E : Int} (h : IsNearest num den M E) :
         have := (nk_le num den E hE 0 (4 * M) 4 1).1 (by have := h.lower_binade hM hs; omega)
         omega }
 
+theorem odd_mul (M u : Nat) : (2 * M + 1) * u = 2 * (M * u) + u := by grind
+
 theorem NearK.not_lt {N u M1 M2 : Nat} {s1 s2 : Prop} (hu : 0 < u)
     (h1 : NearK N u M1 s1) (h2 : NearK N u M2 s2) : ¬ M1 < M2 := by
   intro hlt
@@ -767,6 +777,17 @@ theorem NearK.unique_same {N u M1 M2 : Nat} {s1 s2 : Prop} (hu : 0 < u)
   have := NearK.not_lt hu h2 h1
   omega
 
+theorem cross_arith1 (N a1 u1 w : Nat) (hw : u1 ≤ w)
+    (hq : 4 * 2 ^ 52 * (2 * w) ≤ 4 * N + 2 * w)
+    (hu1 : 2 * N ≤ 2 * a1 + u1) (ha1 : a1 ≤ (2 ^ 53 - 1) * u1) :
+    a1 = (2 ^ 53 - 1) * u1 ∧ 2 * N = 2 * a1 + u1 := by
+  omega
+
+theorem cross_arith2 (N a1 u1 w a2 : Nat) (hu : 0 < u1) (hw : u1 ≤ w)
+    (ha2 : (2 ^ 52 + 1) * (2 * w) ≤ a2) (hl2 : 2 * a2 ≤ 2 * N + 2 * w)
+    (hu1 : 2 * N ≤ 2 * a1 + u1) (ha1 : a1 ≤ (2 ^ 53 - 1) * u1) : False := by
+  omega
+
 /-- Two candidates in different binades (`u2 = 2w ≥ 2·u1`) cannot both be nearest: the top of the
 lower binade `(2^53−1)·u1` is odd, and the bottom of the upper binade needs quarter-step
 closeness. -/
@@ -775,21 +796,20 @@ theorem NearK.not_cross {N u1 w M1 M2 : Nat} {s1 s2 : Prop} (hu : 0 < u1) (hw : 
   have hM2 : 2 ^ 52 ≤ M2 := h2.normal.resolve_right hs2
   have hM1 := h1.mant_lt
   have ha1 : M1 * u1 ≤ (2 ^ 53 - 1) * u1 := Nat.mul_le_mul_right u1 (by omega)
-  have e1 : (2 * M1 + 1) * u1 = 2 * (M1 * u1) + u1 := by grind
   have hu1 := h1.upper
-  have t1 := h1.upper_tie
-  rw [e1] at hu1 t1
+  rw [odd_mul] at hu1
   by_cases hb : M2 = 2 ^ 52
   · have hq := h2.lower_binade hb hs2
     subst hb
-    have ha : M1 * u1 = (2 ^ 53 - 1) * u1 := by omega
-    have := Nat.eq_of_mul_eq_mul_right hu ha
-    have := t1 (by omega)
-    omega
+    obtain ⟨ha, hN⟩ := cross_arith1 N (M1 * u1) u1 w hw hq hu1 ha1
+    have hM := Nat.eq_of_mul_eq_mul_right hu ha
+    have hev := h1.upper_tie (by rw [odd_mul]; exact hN)
+    rw [hM] at hev
+    exact absurd hev (by decide)
   · have ha2 : (2 ^ 52 + 1) * (2 * w) ≤ M2 * (2 * w) := Nat.mul_le_mul_right _ (by omega)
     have hl2 := h2.lower
     rw [Nat.mul_assoc 2 M2] at hl2
-    omega
+    exact cross_arith2 N (M1 * u1) u1 w (M2 * (2 * w)) hu hw ha2 hl2 hu1 ha1
 
 /-- **Uniqueness.**  Two float64 values that are both nearest-even roundings of the same
 `num/den` have the same mantissa and exponent.  (Ties are resolved by evenness; at a binade
@@ -820,5 +840,419 @@ theorem isNearest_unique {num den M1 M2 : Nat} {E1 E2 : Int} (hd : 0 < den)
   · subst heq
     exact ⟨NearK.unique_same (Nat.mul_pos hd (Nat.two_pow_pos _)) k1 k2, rfl⟩
   · exact (cross hE2 hgt k2 k1).elim
+
+theorem overflow_arith (n2 d2 a : Nat) (h1 : (2 ^ 54 - 1) * d2 ≤ 2 * n2) (h2 : 2 * n2 ≤ 2 * a + d2)
+    (h3 : a ≤ (2 ^ 53 - 1) * d2) : a = (2 ^ 53 - 1) * d2 ∧ 2 * n2 = 2 * a + d2 := by
+  omega
+
+/-- A value at or above the overflow threshold has no finite nearest-even float: the candidate
+`(2^53−1)·2^971` has an odd mantissa, so the tie goes to infinity. -/
+theorem isNearest_not_overflow {num den M : Nat} {E : Int} (hd : 0 < den)
+    (h : IsNearest num den M E) : ¬ Overflows num den := by
+  intro ho
+  unfold Overflows at ho
+  have hd2 : 0 < den * P E := Nat.mul_pos hd (P_pos E)
+  have hE := h.exp_le
+  have h1 := (scale_ge' E 971 (971 - E).toNat (by omega) (2 * num) (2 ^ 54 - 1) den).2 (by
+    rw [P_971, Q_971, Nat.mul_one, Nat.mul_comm den]
+    exact Nat.le_trans ho (Nat.le_mul_of_pos_left _ (Nat.two_pow_pos _)))
+  rw [Nat.mul_assoc 2 num] at h1
+  have hu := h.upper
+  rw [odd_mul] at hu
+  have hM := h.mant_lt
+  have ha : M * (den * P E) ≤ (2 ^ 53 - 1) * (den * P E) := Nat.mul_le_mul_right _ (by omega)
+  obtain ⟨e1, e2⟩ := overflow_arith _ _ _ h1 hu ha
+  have hM' := Nat.eq_of_mul_eq_mul_right hd2 e1
+  have hev := h.upper_tie (by rw [odd_mul]; exact e2)
+  rw [hM'] at hev
+  exact absurd hev (by decide)
+
+/-! ## 10. The sign -/
+
+theorem pack_sign (neg : Bool) (mant : Nat) (e : Int) :
+    pack (signBit neg) mant e = pack 0 mant e + UInt64.ofNat (signBit neg) := by
+  unfold pack
+  simp only [Nat.zero_add]
+  split
+  · rw [show UInt64.ofNat 0 = 0 from rfl, UInt64.zero_add]
+  · split
+    · rw [UInt64.ofNat_add, UInt64.add_comm]
+    · split
+      · rw [UInt64.ofNat_add, UInt64.add_comm]
+      · rw [Nat.add_assoc, UInt64.ofNat_add, UInt64.add_comm]
+
+/-- The sign only contributes bit 63: the bits for `neg` are the bits of the positive result plus
+`signBit neg` (`2^63` or `0`), and the positive result is below `2^63`. -/
+theorem ofDecimal_neg (neg : Bool) (m : Nat) (d : Int) :
+    ofDecimal neg m d = ofDecimal false m d + UInt64.ofNat (signBit neg) ∧
+    (ofDecimal false m d).toNat < 2 ^ 63 := by
+  constructor
+  · rw [ofDecimal_unfold neg, ofDecimal_unfold false, signBit_false]
+    split
+    · rw [show UInt64.ofNat 0 = 0 from rfl, UInt64.zero_add]
+    · split
+      · exact pack_sign neg _ _
+      · exact pack_sign neg _ _
+  · rcases ofDecimal_cases false m d with ⟨M, E, hdec, -⟩ | ⟨hbits, -⟩
+    · have hp := decode_of_parts (ofDecimal false m d) _ _ _ rfl rfl rfl
+      rw [hdec] at hp
+      have hlt := UInt64.toNat_lt (ofDecimal false m d)
+      generalize (ofDecimal false m d).toNat = n at *
+      have hs : (n / 2 ^ 63 == 1) = false := by
+        split at hp
+        · exact absurd hp (by simp)
+        · split at hp
+          · injection hp with hp; injection hp with h1 _ _; exact h1.symm
+          · injection hp with hp; injection hp with h1 _ _; exact h1.symm
+      rw [beq_eq_false_iff_ne] at hs
+      omega
+    · rw [hbits, UInt64.toNat_ofNat', signBit_false]
+      decide
+
+/-! ## 11. `decode` is injective on finite floats; `parsesTo` -/
+
+theorem decode_some {w : UInt64} {dy : Num.Dyadic} (h : decode w = some dy) :
+    (w.toNat / 2 ^ 52 % 2048 = 0 ∧ dy = ⟨w.toNat / 2 ^ 63 == 1, w.toNat % 2 ^ 52, -1074⟩) ∨
+    (w.toNat / 2 ^ 52 % 2048 ≠ 0 ∧ w.toNat / 2 ^ 52 % 2048 ≠ 2047 ∧
+      dy = ⟨w.toNat / 2 ^ 63 == 1, w.toNat % 2 ^ 52 + 2 ^ 52,
+        Int.ofNat (w.toNat / 2 ^ 52 % 2048) - 1075⟩) := by
+  rw [decode_of_parts w _ _ _ rfl rfl rfl] at h
+  split at h
+  · exact absurd h (by simp)
+  · rename_i h1
+    split at h
+    · rename_i h2
+      left
+      injection h with h
+      exact ⟨by simpa using h2, h.symm⟩
+    · rename_i h2
+      right
+      injection h with h
+      exact ⟨by simpa using h2, by simpa using h1, h.symm⟩
+
+theorem bits_split (n : Nat) (h : n < 2 ^ 64) :
+    n = (n / 2 ^ 63) * 2 ^ 63 + (n / 2 ^ 52 % 2048) * 2 ^ 52 + n % 2 ^ 52 ∧ n / 2 ^ 63 < 2 := by
+  omega
+
+/-- Distinct finite bit patterns decode to distinct `(sign, mantissa, exponent)` triples. -/
+theorem decode_inj {w1 w2 : UInt64} {dy : Num.Dyadic} (h1 : decode w1 = some dy)
+    (h2 : decode w2 = some dy) : w1 = w2 := by
+  apply UInt64.toNat_inj.1
+  have b1 := bits_split w1.toNat (UInt64.toNat_lt w1)
+  have b2 := bits_split w2.toNat (UInt64.toNat_lt w2)
+  have l1 : w1.toNat % 2 ^ 52 < 2 ^ 52 := Nat.mod_lt _ (by decide)
+  have l2 : w2.toNat % 2 ^ 52 < 2 ^ 52 := Nat.mod_lt _ (by decide)
+  have c1 := decode_some h1
+  have c2 := decode_some h2
+  generalize w1.toNat / 2 ^ 63 = s1 at *
+  generalize w2.toNat / 2 ^ 63 = s2 at *
+  generalize w1.toNat / 2 ^ 52 % 2048 = x1 at *
+  generalize w2.toNat / 2 ^ 52 % 2048 = x2 at *
+  generalize w1.toNat % 2 ^ 52 = f1 at *
+  generalize w2.toNat % 2 ^ 52 = f2 at *
+  have hs : ∀ a b : Nat, a < 2 → b < 2 → (a == 1) = (b == 1) → a = b := by
+    intro a b ha hb h
+    have ha' : a = 0 ∨ a = 1 := by omega
+    have hb' : b = 0 ∨ b = 1 := by omega
+    rcases ha' with rfl | rfl <;> rcases hb' with rfl | rfl <;> simp at h ⊢
+  rcases c1 with ⟨z1, d1⟩ | ⟨z1, -, d1⟩ <;> rcases c2 with ⟨z2, d2⟩ | ⟨z2, -, d2⟩
+  · rw [d1] at d2; injection d2 with e1 e2 e3
+    have := hs _ _ b1.2 b2.2 e1
+    omega
+  · rw [d1] at d2; injection d2 with e1 e2 e3
+    omega
+  · rw [d1] at d2; injection d2 with e1 e2 e3
+    omega
+  · rw [d1] at d2; injection d2 with e1 e2 e3
+    have := hs _ _ b1.2 b2.2 e1
+    have e3' : Int.ofNat x1 = Int.ofNat x2 := by omega
+    have := Int.ofNat.inj e3'
+    omega
+
+/-- **Corollary (soundness of the round-trip check).**  If `parsesTo bits text` holds and `bits`
+is finite, then `text` is a positional decimal `±m·10^d` and `bits` is a nearest-even float64 of
+it, with the sign of the text. -/
+theorem parsesTo_sound {bits : UInt64} {text : List UInt8} {dy : Num.Dyadic}
+    (h : parsesTo bits text = true) (hd : decode bits = some dy) :
+    ∃ neg m d, parsePositional text = some (neg, m, d) ∧ dy.neg = neg ∧
+      IsNearest (decNum m d) (decDen d) dy.m dy.e := by
+  unfold parsesTo at h
+  split at h
+  · rename_i neg m d hp
+    refine ⟨neg, m, d, hp, ?_⟩
+    have hb : ofDecimal neg m d = bits := by simpa using h
+    subst hb
+    rcases ofDecimal_cases neg m d with ⟨M, E, hdec, hN⟩ | ⟨hbits, -⟩
+    · rw [hdec] at hd
+      injection hd with hd
+      subst hd
+      exact ⟨rfl, hN⟩
+    · rw [hbits, decode_inf] at hd
+      exact absurd hd (by simp)
+  · exact absurd h (by simp)
+
+/-- **Corollary (a correct IEEE parser returns exactly `bits`).**  If `parsesTo bits text` holds,
+then every finite float64 `bits'` of the text's sign that is a nearest-even rounding of the
+decimal denoted by `text` is `bits` itself; in particular `bits` is then finite. -/
+theorem parsesTo_unique {bits bits' : UInt64} {text : List UInt8} {neg : Bool} {m : Nat} {d : Int}
+    {dy' : Num.Dyadic} (h : parsesTo bits text = true) (hp : parsePositional text = some (neg, m, d))
+    (hd' : decode bits' = some dy') (hs : dy'.neg = neg)
+    (hn : IsNearest (decNum m d) (decDen d) dy'.m dy'.e) : bits' = bits := by
+  unfold parsesTo at h
+  rw [hp] at h
+  have hb : ofDecimal neg m d = bits := by simpa using h
+  subst hb
+  rcases ofDecimal_cases neg m d with ⟨M, E, hdec, hN⟩ | ⟨-, hov⟩
+  · obtain ⟨e1, e2⟩ := isNearest_unique (decDen_pos d) hn hN
+    apply decode_inj hd'
+    rw [hdec]
+    cases dy' with
+    | mk n' m' e' =>
+      simp only at hs e1 e2
+      rw [hs, e1, e2]
+  · exact absurd hov (isNearest_not_overflow (decDen_pos d) hn)
+
+/-! ## 12. `IsNearest` means "closest representable value, ties to even"
+
+This is the lemma that makes the half-step formulation the right notion: a value satisfying
+`IsNearest` is at least as close to `num/den` as *every* float64-representable value, and whenever
+another representable value is equally close, the chosen mantissa is even. -/
+
+/-- `|a − b|` on naturals -/
+def absDiff (a b : Nat) : Nat := (a - b) + (b - a)
+
+/-- `M·2^E` is a finite float64 value in normalised form. -/
+def Representable (M : Nat) (E : Int) : Prop :=
+  M < 2 ^ 53 ∧ -1074 ≤ E ∧ E ≤ 971 ∧ (2 ^ 52 ≤ M ∨ E = -1074)
+
+theorem close_far_arith (N u a a' : Nat) (hup : 2 * N ≤ 2 * a + u) (hlo : 2 * a ≤ 2 * N + u)
+    (h : a + u ≤ a' ∨ a' + u ≤ a) :
+    absDiff N a ≤ absDiff N a' ∧
+    (absDiff N a = absDiff N a' → 2 * N = 2 * a + u ∨ 2 * a = 2 * N + u) := by
+  unfold absDiff; omega
+
+theorem close_quarter_arith (N w u' a' : Nat) (hw : u' ≤ w) (hu' : 0 < u')
+    (hq : 4 * 2 ^ 52 * (2 * w) ≤ 4 * N + 2 * w)
+    (ha' : a' ≤ (2 ^ 53 - 1) * u') :
+    absDiff N (2 ^ 52 * (2 * w)) ≤ absDiff N a' := by
+  unfold absDiff; omega
+
+theorem up_arith (u w a a' : Nat) (hw : u ≤ w) (ha : a + u ≤ 2 ^ 53 * u)
+    (ha' : 2 ^ 52 * (2 * w) ≤ a') : a + u ≤ a' := by omega
+
+theorem down_arith (u' w a a' : Nat) (hw : u' ≤ w) (ha : (2 ^ 52 + 1) * (2 * w) ≤ a)
+    (ha' : a' ≤ (2 ^ 53 - 1) * u') : a' + 2 * w ≤ a := by omega
+
+/-- Any value at least one step `u` away from `M·u` is no closer, and equally close only at a
+tie, where `M` is even. -/
+theorem NearK.closest_far {N u M a' : Nat} {s : Prop} (h : NearK N u M s)
+    (hfar : M * u + u ≤ a' ∨ a' + u ≤ M * u) :
+    absDiff N (M * u) ≤ absDiff N a' ∧ (absDiff N (M * u) = absDiff N a' → M % 2 = 0) := by
+  have hup := h.upper
+  have hlo := h.lower
+  rw [odd_mul] at hup
+  rw [Nat.mul_assoc 2 M] at hlo
+  obtain ⟨c1, c2⟩ := close_far_arith N u (M * u) a' hup hlo hfar
+  refine ⟨c1, fun he => ?_⟩
+  rcases c2 he with t | t
+  · exact h.upper_tie (by rw [odd_mul]; exact t)
+  · exact h.lower_tie (by rw [Nat.mul_assoc 2 M]; exact t)
+
+theorem pow_split {k k' : Nat} (h : k < k') : 2 ^ k' = 2 * (2 ^ k * 2 ^ (k' - k - 1)) := by
+  rw [← Nat.pow_add, ← Nat.pow_succ']
+  congr 1; omega
+
+theorem unit_split (D : Nat) {k k' : Nat} (h : k < k') :
+    D * 2 ^ k' = 2 * (D * 2 ^ k * 2 ^ (k' - k - 1)) := by
+  rw [pow_split h]; grind
+
+/-- Closest-value property in common units. -/
+theorem closestK {N D M k M' k' : Nat} {s : Prop} (hD : 0 < D) (hs : s → k = 0)
+    (h : NearK N (D * 2 ^ k) M s) (hM' : M' < 2 ^ 53) (hn' : 2 ^ 52 ≤ M' ∨ k' = 0) :
+    absDiff N (M * (D * 2 ^ k)) ≤ absDiff N (M' * (D * 2 ^ k')) ∧
+    (absDiff N (M * (D * 2 ^ k)) = absDiff N (M' * (D * 2 ^ k')) → ¬ (M = M' ∧ k = k') →
+      M % 2 = 0) := by
+  have hM := h.mant_lt
+  rcases Nat.lt_trichotomy k k' with hlt | heq | hgt
+  · -- the other value lies in a higher binade
+    have hM'2 : 2 ^ 52 ≤ M' := by omega
+    have hu := unit_split D hlt
+    have hw : D * 2 ^ k ≤ D * 2 ^ k * 2 ^ (k' - k - 1) :=
+      Nat.le_mul_of_pos_right _ (Nat.two_pow_pos _)
+    rw [hu]
+    generalize D * 2 ^ k * 2 ^ (k' - k - 1) = w at *
+    have ha : M * (D * 2 ^ k) + D * 2 ^ k ≤ 2 ^ 53 * (D * 2 ^ k) := by
+      have := Nat.mul_le_mul_right (D * 2 ^ k) (show M + 1 ≤ 2 ^ 53 by omega)
+      rw [Nat.add_mul, Nat.one_mul] at this; exact this
+    have ha' : 2 ^ 52 * (2 * w) ≤ M' * (2 * w) := Nat.mul_le_mul_right _ hM'2
+    obtain ⟨c1, c2⟩ := h.closest_far (a' := M' * (2 * w)) (Or.inl (up_arith _ _ _ _ hw ha ha'))
+    exact ⟨c1, fun he _ => c2 he⟩
+  · subst heq
+    have hu : 0 < D * 2 ^ k := Nat.mul_pos hD (Nat.two_pow_pos _)
+    rcases Nat.lt_trichotomy M M' with h1 | h1 | h1
+    · have := Nat.mul_le_mul_right (D * 2 ^ k) (show M + 1 ≤ M' by omega)
+      rw [Nat.add_mul, Nat.one_mul] at this
+      obtain ⟨c1, c2⟩ := h.closest_far (Or.inl this)
+      exact ⟨c1, fun he _ => c2 he⟩
+    · subst h1
+      exact ⟨Nat.le_refl _, fun _ hne => absurd ⟨rfl, rfl⟩ hne⟩
+    · have := Nat.mul_le_mul_right (D * 2 ^ k) (show M' + 1 ≤ M by omega)
+      rw [Nat.add_mul, Nat.one_mul] at this
+      obtain ⟨c1, c2⟩ := h.closest_far (Or.inr this)
+      exact ⟨c1, fun he _ => c2 he⟩
+  · -- the other value lies in a lower binade
+    have hns : ¬ s := fun hh => by have := hs hh; omega
+    have hM2 : 2 ^ 52 ≤ M := h.normal.resolve_right hns
+    have hu := unit_split D hgt
+    have hw : D * 2 ^ k' ≤ D * 2 ^ k' * 2 ^ (k - k' - 1) :=
+      Nat.le_mul_of_pos_right _ (Nat.two_pow_pos _)
+    have hu' : 0 < D * 2 ^ k' := Nat.mul_pos hD (Nat.two_pow_pos _)
+    rw [hu] at h ⊢
+    generalize D * 2 ^ k' * 2 ^ (k - k' - 1) = w at *
+    have ha' : M' * (D * 2 ^ k') ≤ (2 ^ 53 - 1) * (D * 2 ^ k') :=
+      Nat.mul_le_mul_right _ (by omega)
+    by_cases hb : M = 2 ^ 52
+    · have hq := h.lower_binade hb hns
+      subst hb
+      exact ⟨close_quarter_arith N w _ _ hw hu' hq ha', fun _ _ => by decide⟩
+    · have ha : (2 ^ 52 + 1) * (2 * w) ≤ M * (2 * w) := Nat.mul_le_mul_right _ (by omega)
+      obtain ⟨c1, c2⟩ := h.closest_far (a' := M' * (D * 2 ^ k'))
+        (Or.inr (down_arith _ _ _ _ hw ha ha'))
+      exact ⟨c1, fun he _ => c2 he⟩
+
+/-- Distances at exponent `E` expressed in units of `2^(-1074)`. -/
+theorem absDiff_scale (num den M : Nat) (E : Int) (hE : -1074 ≤ E) :
+    absDiff (num * Q E) (M * (den * P E)) * Q (-1074) =
+      Q E * absDiff (num * Q (-1074)) (M * (den * 2 ^ (E + 1074).toNat)) := by
+  have h := pq_shift (-1074) E (E + 1074).toNat (by omega)
+  rw [P_m1074, Nat.one_mul] at h
+  generalize P E = p at *
+  generalize Q E = q at *
+  generalize Q (-1074) = t at *
+  generalize 2 ^ (E + 1074).toNat = K at *
+  have x : num * q * t = q * (num * t) := by grind
+  have y : M * (den * p) * t = q * (M * (den * K)) := by grind
+  unfold absDiff
+  rw [Nat.add_mul, Nat.sub_mul, Nat.sub_mul, x, y, Nat.mul_add, Nat.mul_sub, Nat.mul_sub]
+
+/-- **Closest value.**  If `M·2^E` satisfies `IsNearest` for `num/den`, then for every
+representable `M'·2^E'` we have `|num/den − M·2^E| ≤ |num/den − M'·2^E'|` (cross multiplied:
+`|num·Q − M·den·P| / (den·Q)` against the same with primes), and if the two distances are equal
+for a different float then `M` is even. -/
+theorem isNearest_closest {num den M M' : Nat} {E E' : Int} (hd : 0 < den)
+    (h : IsNearest num den M E) (hr : Representable M' E') :
+    absDiff (num * Q E) (M * (den * P E)) * Q E' ≤
+      absDiff (num * Q E') (M' * (den * P E')) * Q E ∧
+    (absDiff (num * Q E) (M * (den * P E)) * Q E' =
+      absDiff (num * Q E') (M' * (den * P E')) * Q E → ¬ (M = M' ∧ E = E') → M % 2 = 0) := by
+  obtain ⟨hM', hE'1, -, hn'⟩ := hr
+  have hE := h.exp_ge
+  have b1 := absDiff_scale num den M E hE
+  have b2 := absDiff_scale num den M' E' hE'1
+  obtain ⟨c1, c2⟩ := closestK (k' := (E' + 1074).toNat) hd (fun hs => by omega) h.toK hM'
+    (hn'.imp id (fun hh => by omega))
+  have hq := Q_pos E
+  have hq' := Q_pos E'
+  have ht := Q_pos (-1074)
+  generalize absDiff (num * Q E) (M * (den * P E)) = A at *
+  generalize absDiff (num * Q E') (M' * (den * P E')) = A' at *
+  generalize absDiff (num * Q (-1074)) (M * (den * 2 ^ (E + 1074).toNat)) = Dd at *
+  generalize absDiff (num * Q (-1074)) (M' * (den * 2 ^ (E' + 1074).toNat)) = Dd' at *
+  generalize Q E = q at *
+  generalize Q E' = q' at *
+  generalize Q (-1074) = t at *
+  have l1 : A * q' * t = q * q' * Dd := by
+    rw [Nat.mul_right_comm, b1]; grind
+  have l2 : A' * q * t = q * q' * Dd' := by
+    rw [Nat.mul_right_comm, b2]; grind
+  have hqq : 0 < q * q' := Nat.mul_pos hq hq'
+  constructor
+  · apply Nat.le_of_mul_le_mul_right _ ht
+    rw [l1, l2]
+    exact Nat.mul_le_mul_left _ c1
+  · intro he hne
+    have he' : q * q' * Dd = q * q' * Dd' := by rw [← l1, ← l2, he]
+    have := Nat.eq_of_mul_eq_mul_left hqq he'
+    refine c2 this (fun hh => hne ⟨hh.1, ?_⟩)
+    have := hh.2
+    omega
+
+/-! ## 13. Sanity checks of the specification on concrete values, and satisfiability -/
+
+-- 1 ↦ 0x3FF0000000000000, 1.5, 1e23 (the classic near-tie), 2^53+1 (tie to even, down),
+-- 2^53+3 (tie to even, up), 5e-324 (least subnormal), 2e-324 (below half of it: zero),
+-- 1.7976931348623157e308 (largest finite), 1.7976931348623159e308 (overflow), -(2^53-1)
+example : ofDecimal false 1 0 = 0x3FF0000000000000 := by decide
+example : ofDecimal false 15 (-1) = 0x3FF8000000000000 := by decide
+example : ofDecimal false 1 23 = 0x44B52D02C7E14AF6 := by decide
+example : ofDecimal false 9007199254740993 0 = 0x4340000000000000 := by decide
+example : ofDecimal false 9007199254740995 0 = 0x4340000000000002 := by decide
+example : ofDecimal false 5 (-324) = 1 := by decide +kernel
+example : ofDecimal false 2 (-324) = 0 := by decide +kernel
+example : ofDecimal false 17976931348623157 292 = 0x7FEFFFFFFFFFFFFF := by decide +kernel
+example : ofDecimal false 17976931348623159 292 = 0x7FF0000000000000 := by decide +kernel
+example : ofDecimal true 9007199254740991 0 = 0xC33FFFFFFFFFFFFF := by decide
+
+/-- `ofDecimal_correct`, finite branch, instantiated at 1e23: the hypotheses are satisfiable and
+the conclusion is the expected non-trivial fact. -/
+example : IsNearest (decNum 1 23) (decDen 23) 5960464477539062 24 :=
+  ((ofDecimal_correct false 1 23 (by decide)).1 false 5960464477539062 24 (by decide)).2.1
+
+/-- `ofDecimal_correct`, overflow branch, instantiated at 2e308. -/
+example : Overflows (decNum 2 308) (decDen 308) :=
+  ((ofDecimal_correct false 2 308 (by decide)).2 (by decide +kernel)).2
+
+/-- `IsNearest` is inhabited directly: 1.5 = 3·2^51·2^(-52), and 2^53+1 ties to the even `2^52·2^1`. -/
+example : IsNearest 3 2 (3 * 2 ^ 51) (-52) := by constructor <;> decide
+example : IsNearest (2 ^ 53 + 1) 1 (2 ^ 52) 1 := by constructor <;> decide
+
+/-- `isNearest_unique` on a tie: the odd neighbour `(2^52+1)·2^1` of `2^53+1` is rejected. -/
+example (M : Nat) (E : Int) (h : IsNearest (2 ^ 53 + 1) 1 M E) : M = 2 ^ 52 ∧ E = 1 :=
+  isNearest_unique (by decide) h (by constructor <;> decide)
+example : ¬ IsNearest (2 ^ 53 + 1) 1 (2 ^ 52 + 1) 1 := fun h => by
+  have := (isNearest_unique (by decide) h (by constructor <;> decide : IsNearest (2 ^ 53 + 1) 1 (2 ^ 52) 1)).1
+  exact absurd this (by decide)
+
+/-- `isNearest_closest` instantiated: 1e23 is at least as close to its float as to the next float
+up. -/
+example : absDiff (decNum 1 23 * Q 24) (5960464477539062 * (decDen 23 * P 24)) * Q 24 ≤
+    absDiff (decNum 1 23 * Q 24) (5960464477539063 * (decDen 23 * P 24)) * Q 24 :=
+  (isNearest_closest (decDen_pos 23)
+    ((ofDecimal_correct false 1 23 (by decide)).1 false 5960464477539062 24 (by decide)).2.1
+    (by unfold Representable; decide)).1
+
+/-- `parsesTo_sound` / `parsesTo_unique` instantiated at the text `0.1`. -/
+example : ∃ neg m d, parsePositional [48, 46, 49] = some (neg, m, d) ∧ false = neg ∧
+    IsNearest (decNum m d) (decDen d) 7205759403792794 (-56) :=
+  parsesTo_sound (bits := 0x3FB999999999999A) (text := [48, 46, 49])
+    (dy := ⟨false, 7205759403792794, -56⟩) (by decide) (by decide)
+
+example (bits' : UInt64) (hd' : decode bits' = some ⟨false, 7205759403792794, -56⟩) :
+    bits' = 0x3FB999999999999A :=
+  parsesTo_unique (text := [48, 46, 49]) (neg := false) (m := 1) (d := -1) (by decide) (by decide)
+    hd' rfl ((ofDecimal_correct false 1 (-1) (by decide)).1 false 7205759403792794 (-56)
+      (by decide)).2.1
+
+/-- `isNearest_not_overflow`: no finite float is nearest to 2e308. -/
+example (M : Nat) (E : Int) : ¬ IsNearest (decNum 2 308) (decDen 308) M E := fun h =>
+  isNearest_not_overflow (decDen_pos 308) h
+    ((ofDecimal_correct false 2 308 (by decide)).2 (by decide +kernel)).2
+
+#print axioms ofDecimal_unfold
+#print axioms chooseE_spec
+#print axioms roundDiv_spec
+#print axioms decode_norm
+#print axioms ofDecimal_cases
+#print axioms ofDecimal_correct
+#print axioms ofDecimal_correct_disj
+#print axioms ofDecimal_zero
+#print axioms ofDecimal_neg
+#print axioms isNearest_zero_iff
+#print axioms isNearest_unique
+#print axioms isNearest_not_overflow
+#print axioms decode_inj
+#print axioms parsesTo_sound
+#print axioms parsesTo_unique
+#print axioms isNearest_closest
 
 end QF.Props.C16Round
